@@ -46,6 +46,7 @@ DEF_INT(int8_t, "int8", 8, true); DEF_INT(int16_t, "int16", 16, true); DEF_INT(i
 DEF_INT(uint8_t, "uint8", 8, false); DEF_INT(uint16_t, "uint16", 16, false); DEF_INT(uint32_t, "uint32", 32, false); DEF_INT(uint64_t, "uint64", 64, false);
 template <> struct NT<float> { static const char* name() { return "float"; } static const bool is_float = true, is_int = false, is_gmp = false, sgn = true; static const int bits = 32; static const int mant = 24; };
 template <> struct NT<double> { static const char* name() { return "double"; } static const bool is_float = true, is_int = false, is_gmp = false, sgn = true; static const int bits = 64; static const int mant = 53; };
+template <> struct NT<long double> { static const char* name() { return "ldouble"; } static const bool is_float = true, is_int = false, is_gmp = false, sgn = true; static const int bits = 80; static const int mant = 64; };
 template <> struct NT<mpz_class> { static const char* name() { return "mpz"; } static const bool is_float = false, is_int = false, is_gmp = true, sgn = true; static const int bits = 0; static const int mant = 1 << 30; };
 template <> struct NT<mpq_class> { static const char* name() { return "mpq"; } static const bool is_float = false, is_int = false, is_gmp = true, sgn = true; static const int bits = 0; static const int mant = 1 << 30; };
 
@@ -61,6 +62,24 @@ static XV describe_d(double v) {
   if (v < -std::numeric_limits<double>::max()) return XV(-1);
   return XV(mpq_class(v));
 }
+// x87 80-bit extended: 64-bit mantissa; exact value = (m * 2^64) * 2^(e - 64) with m = frexpl(v) in [1/2, 1)
+static XV describe_ld(long double v) {
+  if (v != v) return XV(2);
+  if (v > std::numeric_limits<long double>::max()) return XV(1);
+  if (v < -std::numeric_limits<long double>::max()) return XV(-1);
+  if (v == 0) return XV(mpq_class(0));
+  int e; long double m = frexpl(v, &e);
+  bool neg = m < 0; if (neg) m = -m;
+  long double scaled = ldexpl(m, 64);                      // an integer below 2^64, exactly
+  unsigned long long n = (unsigned long long)scaled;
+  mpz_class z; z = (unsigned long)n;
+  mpq_class q(z);
+  int k = e - 64;
+  if (k >= 0) q *= mpq_class(mpz_class(1) << k); else q /= mpq_class(mpz_class(1) << (-k));
+  if (neg) q = -q;
+  return XV(q);
+}
+template <> XV describe<long double>(const long double& v) { return describe_ld(v); }
 template <> XV describe<float>(const float& v) { return describe_d((double)v); }
 template <> XV describe<double>(const double& v) { return describe_d(v); }
 template <> XV describe<mpz_class>(const mpz_class& v) { return XV(mpq_class(v)); }
@@ -75,8 +94,9 @@ template <typename T> static ToInfo to_info() {
     else { ti.lo = 0; ti.hi = mpq_class((one << NT<T>::bits) - 1); }
   }
   else if (NT<T>::is_float) {
-    double m = NT<T>::mant == 24 ? (double)std::numeric_limits<float>::max() : std::numeric_limits<double>::max();
-    ti.hi = mpq_class(m); ti.lo = -ti.hi;
+    if (NT<T>::mant == 64) ti.hi = describe_ld(std::numeric_limits<long double>::max()).q;
+    else ti.hi = mpq_class(NT<T>::mant == 24 ? (double)std::numeric_limits<float>::max() : std::numeric_limits<double>::max());
+    ti.lo = -ti.hi;
   }
   return ti;
 }
@@ -158,7 +178,7 @@ static mpz_class odd_num(int nb, unsigned low, int lowbits) {
 }
 
 static std::vector<mpq_class> universal;        // rationals every pool is derived from
-static std::vector<mpq_class> dyadic_f, dyadic_d; // aimed at the rounding decision of mpq -> float / double
+static std::vector<mpq_class> dyadic_f, dyadic_d, dyadic_l; // aimed at the rounding decision of mpq -> float / double
 static bool thorough = false;
 
 static void build_universal() {
@@ -174,8 +194,8 @@ static void build_universal() {
     const mpq_class dl[] = { mpq_class(-1), mpq_class(-1, 2), mpq_class(0), mpq_class(1, 2), mpq_class(1) };
     for (int j = 0; j < 5; ++j) { U.push_back(p + dl[j]); U.push_back(-p + dl[j]); }
   }
-  const int fb[] = { 24, 53 };
-  for (int i = 0; i < 2; ++i) {
+  const int fb[] = { 24, 53, 64 };
+  for (int i = 0; i < 3; ++i) {
     int P = fb[i];
     for (int d = -1; d <= 1; ++d) { U.push_back(mpq_class(pow2(P) + d)); U.push_back(mpq_class(-(pow2(P) + d))); U.push_back(mpq_class(pow2(P + 1) + d)); U.push_back(mpq_class(pow2(P + 2) + d)); }
     // numerators of P, P+1, P+2 bits over small and large powers of two
@@ -191,6 +211,11 @@ static void build_universal() {
   U.push_back(dmax); U.push_back(-dmax); U.push_back(dmax + dulp / 2); U.push_back(dmax + 1); U.push_back(mpq_class(pow2(1024))); U.push_back(-mpq_class(pow2(1030)));
   U.push_back(q2(1, 149)); U.push_back(q2(1, 150)); U.push_back(q2(3, 151)); U.push_back(q2(-1, 149)); U.push_back(q2(1, 126)); U.push_back(q2(pow2(24) - 1, 149 + 0));
   U.push_back(q2(1, 1074)); U.push_back(q2(1, 1075)); U.push_back(q2(3, 1076)); U.push_back(q2(-1, 1074)); U.push_back(q2(1, 1022)); U.push_back(q2(1, 1200));
+  // x87 extended: LDBL_MIN = 2^-16382, largest denormal = 2^-16382 - 2^-16445, smallest = 2^-16445, LDBL_MAX = 2^16384 - 2^16320
+  { mpq_class lmin = q2(1, 16382), dmin = q2(1, 16445), lmax = mpq_class(pow2(16384) - pow2(16320));
+    U.push_back(lmin); U.push_back(-lmin); U.push_back(lmin - dmin); U.push_back(lmin - dmin / 2); U.push_back(-(lmin - dmin / 2)); U.push_back(lmin - dmin / 4);
+    U.push_back(lmin + dmin / 2); U.push_back(dmin); U.push_back(dmin / 2); U.push_back(dmin * 3 / 2); U.push_back(-dmin / 4);
+    U.push_back(lmax); U.push_back(-lmax); U.push_back(lmax + mpq_class(pow2(16319))); U.push_back(mpq_class(pow2(16384))); U.push_back(-mpq_class(pow2(16384)) - 1); }
   int nr = thorough ? 60 : 16;
   for (int i = 0; i < nr; ++i) {
     mpz_class n = rnd_bits(8 + (int)(rnd() % 90)), d = rnd_bits(1 + (int)(rnd() % 70)) + 1;
@@ -201,9 +226,9 @@ static void build_universal() {
   U.swap(V);
   // aimed dyadic rationals
   int nd = thorough ? 4000 : 600;
-  for (int f = 0; f < 2; ++f) {
-    int P = fb[f]; std::vector<mpq_class>& D = f ? dyadic_d : dyadic_f;
-    int emin = f ? 1074 : 149, emax = f ? 1023 : 127;
+  for (int f = 0; f < 3; ++f) {
+    int P = fb[f]; std::vector<mpq_class>& D = f == 2 ? dyadic_l : f ? dyadic_d : dyadic_f;
+    int emin = f == 2 ? 16445 : f ? 1074 : 149, emax = f == 2 ? 16383 : f ? 1023 : 127;
     for (int i = 0; i < nd; ++i) {
       int extra = (int)(rnd() % 4);                 // P, P+1, P+2, P+3 bit numerators
       mpz_class n = odd_num(P + extra, (unsigned)((rnd() % 4) * 2 + 1), 3);
@@ -257,6 +282,19 @@ template <typename T> static void build_float_pool() {
   for (size_t i = 0; i < universal.size(); ++i) {
     double d = mpq_get_d(universal[i].get_mpq_t());      // truncation toward zero, exact enough to land next to q
     T t = (T)d;
+    if (NT<T>::mant == 64) {
+      // beyond double's range / precision: scale the top 64 bits of |q| by hand
+      const mpq_class& q = universal[i];
+      if (q != 0) {
+        long ex = (long)mpz_sizeinbase(q.get_num().get_mpz_t(), 2) - (long)mpz_sizeinbase(q.get_den().get_mpz_t(), 2);
+        mpz_class nn = abs(q.get_num()), dd = q.get_den(); long sh = 64 - ex;
+        if (sh >= 0) nn <<= sh; else dd <<= (-sh);
+        mpz_class top = nn / dd;                           // about 2^63 .. 2^65
+        while (mpz_sizeinbase(top.get_mpz_t(), 2) > 64) { top >>= 1; --sh; }
+        long double v = ldexpl((long double)(unsigned long long)top.get_ui(), (int)std::max(-40000L, std::min(40000L, -sh)));
+        t = (T)(sgn(q) < 0 ? -v : v);
+      }
+    }
     T lo = std::nextafter(t, -inf), hi = std::nextafter(t, inf);
     add_val<T>(t);
     if ((i % 3) == 0 || thorough) { add_val<T>(lo); add_val<T>(hi); }
@@ -301,6 +339,10 @@ template <typename T> static bool representable_in_float_type(const XV& v, int m
   return (int)(nb - tz) <= mant;
 }
 
+// does the dyadic rational q = n / 2^k have at most `mant' significant bits?
+static bool dyadic_fits(const mpq_class& q, int mant) { if (q == 0) return true; mpz_class n = abs(q.get_num()); size_t nb = mpz_sizeinbase(n.get_mpz_t(), 2), tz = mpz_scan1(n.get_mpz_t(), 0); return (int)(nb - tz) <= mant; }
+static mpq_class trunc_q_early(const mpq_class& q) { mpz_class t; mpz_tdiv_q(t.get_mpz_t(), q.get_num().get_mpz_t(), q.get_den().get_mpz_t()); return mpq_class(t); }
+static mpq_class floor_q_early(const mpq_class& q) { mpz_class t; mpz_fdiv_q(t.get_mpz_t(), q.get_num().get_mpz_t(), q.get_den().get_mpz_t()); return mpq_class(t); }
 template <typename To, typename From>
 static void conv_values(const std::vector<From>& vals, const std::vector<XV>& xs, const char* tag) {
   ToInfo ti = to_info<To>();
@@ -317,6 +359,9 @@ static void conv_values(const std::vector<From>& vals, const std::vector<XV>& xs
         // a floating point source equal to max+1 of an integer destination wider than the source's mantissa
         const char* cls = (NT<To>::is_int && NT<From>::is_float && NT<To>::bits > NT<From>::mant && xs[i].kind == 0 && xs[i].q == ti.hi + 1)
           ? "float-source-equals-int-max+1" : "other";
+        // a long double source that double cannot hold exactly (more than 53 significant bits), into a 64-bit integer
+        if (NT<To>::is_int && NT<To>::bits == 64 && NT<From>::mant == 64 && xs[i].kind == 0 && !dyadic_fits(xs[i].q, 53))
+          cls = "ldouble-source-not-representable-in-double";
         fail("conv", std::string("assign") + tag, NT<To>::name(), NT<From>::name(), cls, dir, show(xs[i]), g.str(), why);
       }
     }
@@ -327,12 +372,13 @@ template <typename To> static void conv_dyadic() {
   std::vector<XV> xf, xd;
   for (size_t i = 0; i < dyadic_f.size(); ++i) xf.push_back(XV(dyadic_f[i]));
   for (size_t i = 0; i < dyadic_d.size(); ++i) xd.push_back(XV(dyadic_d[i]));
+  if (NT<To>::mant == 64) { std::vector<XV> xl; for (size_t i = 0; i < dyadic_l.size(); ++i) xl.push_back(XV(dyadic_l[i])); conv_values<To, mpq_class>(dyadic_l, xl, "_dyadic"); return; }
   conv_values<To, mpq_class>(NT<To>::mant == 24 ? dyadic_f : dyadic_d, NT<To>::mant == 24 ? xf : xd, "_dyadic");
 }
 template <typename To> static void conv_to() {
   conv_pair<To, int8_t>(); conv_pair<To, int16_t>(); conv_pair<To, int32_t>(); conv_pair<To, int64_t>();
   conv_pair<To, uint8_t>(); conv_pair<To, uint16_t>(); conv_pair<To, uint32_t>(); conv_pair<To, uint64_t>();
-  conv_pair<To, float>(); conv_pair<To, double>(); conv_pair<To, mpz_class>(); conv_pair<To, mpq_class>();
+  conv_pair<To, float>(); conv_pair<To, double>(); conv_pair<To, long double>(); conv_pair<To, mpz_class>(); conv_pair<To, mpq_class>();
 }
 
 // ---------------------------------------------------------------------------------------------------------------
@@ -601,7 +647,7 @@ template <typename T1, typename T2> static void cmp_pair() {
 template <typename T1> static void cmp_from() {
   cmp_pair<T1, int8_t>(); cmp_pair<T1, int16_t>(); cmp_pair<T1, int32_t>(); cmp_pair<T1, int64_t>();
   cmp_pair<T1, uint8_t>(); cmp_pair<T1, uint16_t>(); cmp_pair<T1, uint32_t>(); cmp_pair<T1, uint64_t>();
-  cmp_pair<T1, float>(); cmp_pair<T1, double>(); cmp_pair<T1, mpz_class>(); cmp_pair<T1, mpq_class>();
+  cmp_pair<T1, float>(); cmp_pair<T1, double>(); cmp_pair<T1, long double>(); cmp_pair<T1, mpz_class>(); cmp_pair<T1, mpq_class>();
 }
 
 
@@ -760,25 +806,25 @@ int main(int argc, char** argv) {
   build_universal();
   build_int_pool<int8_t>(); build_int_pool<int16_t>(); build_int_pool<int32_t>(); build_int_pool<int64_t>();
   build_int_pool<uint8_t>(); build_int_pool<uint16_t>(); build_int_pool<uint32_t>(); build_int_pool<uint64_t>();
-  build_float_pool<float>(); build_float_pool<double>(); build_gmp_pools();
+  build_float_pool<float>(); build_float_pool<double>(); build_float_pool<long double>(); build_gmp_pools();
   std::cout << "P universal " << universal.size() << " int64 " << Pool<int64_t>::v.size() << " float " << Pool<float>::v.size() << " double "
             << Pool<double>::v.size() << " mpz " << Pool<mpz_class>::v.size() << " mpq " << Pool<mpq_class>::v.size() << "\n";
   if (only == "all" || only == "conv") {
     conv_to<int8_t>(); conv_to<int16_t>(); conv_to<int32_t>(); conv_to<int64_t>();
     conv_to<uint8_t>(); conv_to<uint16_t>(); conv_to<uint32_t>(); conv_to<uint64_t>();
-    conv_to<float>(); conv_to<double>(); conv_to<mpz_class>(); conv_to<mpq_class>();
-    conv_dyadic<float>(); conv_dyadic<double>();
+    conv_to<float>(); conv_to<double>(); conv_to<long double>(); conv_to<mpz_class>(); conv_to<mpq_class>();
+    conv_dyadic<float>(); conv_dyadic<double>(); conv_dyadic<long double>();
   }
-  if (only == "all" || only == "arith") { arith_type<float>(); arith_type<double>(); arith_type<mpz_class>(); arith_type<mpq_class>(); }
+  if (only == "all" || only == "arith") { arith_type<float>(); arith_type<double>(); arith_type<long double>(); arith_type<mpz_class>(); arith_type<mpq_class>(); }
   if (only == "all" || only == "compare") {
     cmp_from<int8_t>(); cmp_from<int16_t>(); cmp_from<int32_t>(); cmp_from<int64_t>();
     cmp_from<uint8_t>(); cmp_from<uint16_t>(); cmp_from<uint32_t>(); cmp_from<uint64_t>();
-    cmp_from<float>(); cmp_from<double>(); cmp_from<mpz_class>(); cmp_from<mpq_class>();
+    cmp_from<float>(); cmp_from<double>(); cmp_from<long double>(); cmp_from<mpz_class>(); cmp_from<mpq_class>();
   }
   if (only == "all" || only == "input") {
     build_input_cases();
     std::cout << "P input-strings " << in_cases.size() << "\n";
-    input_to<mpq_class>(); input_to<mpz_class>(); input_to<float>(); input_to<double>();
+    input_to<mpq_class>(); input_to<mpz_class>(); input_to<float>(); input_to<double>(); input_to<long double>();
     input_to<int8_t>(); input_to<int16_t>(); input_to<int32_t>(); input_to<int64_t>();
     input_to<uint8_t>(); input_to<uint16_t>(); input_to<uint32_t>(); input_to<uint64_t>();
   }
